@@ -75,7 +75,12 @@ def make_site(rng, i, depth):
         s["obs"] = [gen.expr(v)] * rng.choice([1, 1, 2])
         s["sig"] = f"{gen.kind_sig(p, 1)}>{gen.kind_sig(v, 1)}"
     elif op in ("le", "ge"):
-        g, ts = gen.gen_ordered(rng, rng.randint(2, 4))
+        if rng.random() < 0.15:
+            # partial order (sets under inclusion): the observed values form a chain, the previous value may be incomparable
+            g, prev, chain = gen.gen_poset(rng, rng.randint(1, 3))
+            ts = [prev] + chain
+        else:
+            g, ts = gen.gen_ordered(rng, rng.randint(2, 4))
         s.setdefault("old", gen.layout(ts[0], rng))
         s["obs"] = [gen.expr(t) for t in ts[1:]]
         s["sig"] = g
@@ -216,6 +221,8 @@ def run_shard(args):
             if s["place"] == "module":
                 s["place"] = "loop"  # an empty module-level snapshot makes the disabled import fail by design
         src, order = program.build(sites, style="assert", tests=3, header="import pytest\nfrom inline_snapshot import snapshot, Is, HasRepr, external, outsource\nfrom vp import *\n")
+        # a fix whose only difference is white space at the end of a line of a multi-line string
+        src += '\n\ndef test_ws_only_difference():\n    assert "col1\\t\\ncol2\\n" == snapshot("""\\\ncol1\ncol2\n""")\n    assert "x \\ny\\n" == snapshot("""\\\nx\ny\n""")\n'
         src += tail
         proj = session.Project({"test_a.py": src})
         try:
